@@ -1,6 +1,7 @@
 package fsx
 
 import (
+	"context"
 	"errors"
 	"fmt"
 	"io"
@@ -148,7 +149,7 @@ func (e *Env) interfere(ic InterfereCase) {
 	}
 	switch ic.Cond {
 	case "if-match-current":
-		if fi, _ := webdav.LocalFileSystem(e.Root).Stat(nil, "/dir/t"); fi != nil {
+		if fi, _ := webdav.LocalFileSystem(e.Root).Stat(context.Background(), "/dir/t"); fi != nil {
 			sreq.Header.Set("If-Match", fmt.Sprintf("%q", fi.ETag))
 		}
 	case "if-none-match-star":
